@@ -73,8 +73,17 @@ def main(argv):
         rep = workload.make_repr(cfg["repr"], g, cfg.get("decider", "maxdepth"), md, src, gene_length=64)
         prob = SingleObjectiveProblem(fitness, minimize=cfg.get("minimize", False))
         b = EvaluationBudget(cfg["budget"])
+        step = None
+        if cfg.get("step") == "cx":  # the default step crosses over with probability 0.01: make the operators actually run
+            from geneticengine.algorithms.gp.operators.combinators import ParallelStep, SequenceStep
+            from geneticengine.algorithms.gp.operators.crossover import GenericCrossoverStep
+            from geneticengine.algorithms.gp.operators.elitism import ElitismStep
+            from geneticengine.algorithms.gp.operators.mutation import GenericMutationStep
+            from geneticengine.algorithms.gp.operators.selection import TournamentSelection
+
+            step = ParallelStep([ElitismStep(), SequenceStep(TournamentSelection(2), GenericCrossoverStep(0.9), GenericMutationStep(0.5))], weights=[1, 9])
         alg = {
-            "gp": lambda: GeneticProgramming(prob, b, rep, src, population_size=cfg.get("pop", 6)),
+            "gp": lambda: GeneticProgramming(prob, b, rep, src, population_size=cfg.get("pop", 6), step=step),
             "rs": lambda: RandomSearch(prob, b, rep, src),
             "hc": lambda: HC(prob, b, rep, src, number_of_mutations=cfg.get("pop", 3)),
             "opo": lambda: OnePlusOne(prob, b, rep, src),
